@@ -116,6 +116,7 @@ var checks = []Check{
 		Rule:        "distinct inputs (byte strings, structured requests, backend reply texts/shapes), each evaluated once per enumerated environment (map order)",
 		Assumptions: append([]string{"memory is measured as runtime.MemStats.Sys inside the isolated child", "alphabet chosen from the RESP type bytes, digits, CR, LF, a letter and space"}, engineAssumptions...),
 		Jobs: []Job{
+			{Pkg: "proc/redis", Scenarios: []string{"C11/through-the-stack"}, Shards: 8, QuickS: 90, ThoroughS: 240},
 			{Pkg: "proc/redis", Scenarios: []string{"C02/client"}, Shards: 16, QuickS: 120, ThoroughS: 240}, // malformed backend bytes under every schedule of senders, reader and writer
 			{Pkg: "proc/redis", Scenarios: []string{"C11/inputs"}, Shards: 16, QuickS: 150, ThoroughS: 240},
 			{Pkg: "proc/redis", Scenarios: []string{"C11/backend"}, Shards: 8, QuickS: 120, ThoroughS: 240},
